@@ -1,4 +1,4 @@
-(* C02 model driver.  ENV lines: see below.  Otherwise one case per input line:
+(* C02 model driver.  ENV and INO lines: see below.  Otherwise one case per input line:
      <bs> <workers> <backlog> <nfiles> { <flagword> <nchunks> { <hex|-> } }
    Output per case (same text as props/C02/h_bp.c):
      CASE / W size cksum flags data loc / I ino ext size sparse start fidx foff blocks / F start word / X file / END
@@ -71,6 +71,29 @@ let () =
         let env = if tok.(1) = "UNSET" then None else Some (unhex tok.(1)) in
         let opt = if tok.(2) = "-" then None else Some (n_of_int (int_of_string tok.(2))) in
         Printf.printf "E %d %d\n" (int_of_n (get_source_date_epoch env)) (int_of_n (default_mtime env opt))
+      end else
+      if Array.length tok >= 1 && tok.(0) = "INO" then begin
+        (* INO { op args }  ->  J ext size sparse start fidx foff   (props/C02/h_ino.c) *)
+        let big s = n_of_int (int_of_string s) in     (* values stay below 2^62 *)
+        let i = ref new_inode in
+        let pos = ref 1 in
+        let next () = let t = tok.(!pos) in incr pos; t in
+        (try
+          while !pos < Array.length tok do
+            (match next () with
+             | "z" -> let v = big (next ()) in i := i_set_file_size !i v
+             | "a" -> let v = big (next ()) in i := i_set_file_size !i (n_of_int (int_of_n !i.i_size + int_of_n v))
+             | "s" -> let v = big (next ()) in i := i_set_block_start !i v
+             | "p" -> let v = big (next ()) in i := i_add_sparse (i_make_extended !i) v
+             | "f" -> let a = big (next ()) in let b = big (next ()) in i := i_set_frag !i a b
+             | "x" -> i := i_make_extended !i
+             | "b" -> i := i_make_basic !i
+             | _ -> ())
+          done
+        with Invalid_argument _ -> ());
+        let str n = string_of_int (int_of_n n) in
+        Printf.printf "J %d %s %s %s %s %s\n" (if !i.i_ext then 1 else 0) (str !i.i_size) (str !i.i_sparse)
+          (str !i.i_start) (str !i.i_fidx) (str !i.i_foff)
       end else
       if Array.length tok >= 4 then begin
         let pos = ref 0 in
